@@ -48,6 +48,7 @@ type GenCfg struct {
 	EvictRate float64
 	BigRate   float64 // probability of slab-sized values
 	ScnRate   float64 // probability that a step is the next step of a scenario (scenarios.go)
+	DeepCalls bool    // every node has a small call-depth limit: generate (aborting) recursions often
 	FaultKinds []string
 	Nodes     []NodeConfig
 }
@@ -734,7 +735,11 @@ func (g *Gen) attachOp() Op {
 }
 
 func (g *Gen) controlOp() Op {
-	switch g.R.Intn(4) {
+	c := g.R.Intn(4)
+	if g.Cfg.DeepCalls && g.R.Chance(0.6) {
+		c = 3
+	}
+	switch c {
 	case 3:
 		// recursion well below the smallest configured call-depth limit (256); with J == 1 the execution aborts at the bottom,
 		// with I frames on the stack
